@@ -23,7 +23,8 @@ fn nm(s: &str) -> Value {
     json!({"n": s})
 }
 fn src_box(i: i64) -> [i64; 4] {
-    if i % 2 == 1 { [100 + i, 200 + i, 400 + i, 600 + i] } else { [10, 20, 310, 420] }
+    // page 1 sits high on the sheet (its lower edge above its right edge: 701 > 351), page 3 away from the origin
+    if i == 1 { [51, 701, 351, 1101] } else if i % 2 == 1 { [100 + i, 200 + i, 400 + i, 600 + i] } else { [10, 20, 310, 420] }
 }
 fn src_rot(i: i64) -> i64 {
     match i % 4 { 1 => 0, 2 => 90, 3 => -90, _ => 450 }
